@@ -1,6 +1,7 @@
 /- C12 driver: op lines in, observable lines out (same format as props/C12/harness.cpp). -/
 import TboxModel.Util
 import TboxModel.C12.Pipeline
+import TboxModel.C12.Url
 open Tbox.Util Tbox.C12
 
 def cfg : Cfg := Cfg.fixed
@@ -13,6 +14,26 @@ def showReq (r : Req) : String :=
   " query=" ++ showKVs r.url.query ++ " frag=" ++ hexOfBytes r.url.frag ++ " ver=" ++ verStr r.ver ++
   " hdr=" ++ showKVs r.headers ++ " body=" ++ hexOfBytes r.body ++ " str=" ++ hexOfBytes r.render ++
   " rt=" ++ (if parseUrlPath (urlPathToString r.url) == some r.url then "1" else "0")
+
+def showPath (u : UrlPath) : String :=
+  "path=" ++ hexOfBytes u.path ++ " params=" ++ showKVs u.params ++ " query=" ++ showKVs u.query ++ " frag=" ++ hexOfBytes u.frag
+
+def showHost (h : UrlHost) : String :=
+  "user=" ++ hexOfBytes h.user ++ " pw=" ++ hexOfBytes h.password ++ " host=" ++ hexOfBytes h.host ++ " port=" ++ toString h.port
+
+def pathTags (u : UrlPath) : String :=
+  "B " ++ (if u.wf then "url-wf" else "url-nwf") ++ (if u.params.isEmpty then "" else " url-params") ++
+    (if u.query.isEmpty then "" else " url-query") ++ (if u.frag.isEmpty then "" else " url-frag")
+
+/-- `mkpath` / `mkurl`: print a path value and read the text back -/
+def backPath (u : UrlPath) : String :=
+  "str=" ++ hexOfBytes (urlPathToString u) ++ " back=" ++
+    (match parseUrlPath (urlPathToString u) with
+     | none => "0"
+     | some v => "1 " ++ showPath v ++ " rt=" ++ (if v == u then "1" else "0"))
+
+def methodNames : List String := ["kUnset", "kGet", "kHead", "kPut", "kPost", "kTrace", "kOptions", "kDelete"]
+def verNames : List String := ["kUnset", "k1_0", "k1_1", "k2_0"]
 
 def showSt : St → String
   | .init => "init" | .startLine => "startline" | .heads => "heads" | .all => "all" | .fail => "fail"
@@ -119,7 +140,7 @@ def parseScript (spec : String) : Option HScript :=
   levels.mapM fun lv => if lv == "-" then some [] else (lv.splitOn ".").mapM parseAct
 
 def poisonOps : List String :=
-  ["seg", "done", "doneN", "doneR", "rel", "cclose", "dclose", "dcloseN", "cdone", "chalf", "chalfS", "wfail"]
+  ["seg", "done", "doneN", "doneR", "rel", "cclose", "dclose", "dcloseN", "cdone", "chalf", "chalfS", "wfail", "sstop", "sclean"]
 
 def stepLine (m : Mode) (line : String) : Mode × List String :=
   let ws := words line
@@ -245,6 +266,88 @@ def stepLine (m : Mode) (line : String) : Mode × List String :=
     match m with
     | .server s => (.server s.wfail, ["B wfail", "P wfail"])
     | _ => (m, ["bad-op"])
+  | [op] =>
+    -- the application stops / cleans up the server outside any handler (contexts may still be held)
+    match m with
+    | .server s =>
+      if op == "sstop" || op == "sclean" then
+        let s' := s.sstop
+        (.server s', ["B " ++ op ++ (if s.pipe.valid then " h-stop-outside" else " stop-after-drop") ++
+            (if s.outstanding.isEmpty then "" else " stop-outstanding")] ++ showOut s.pipe s'.pipe)
+      else (m, ["bad-op"])
+    | _ => (m, ["bad-op"])
+  | ["upath", h] =>
+    match bytesOfHex h with
+    | some b =>
+      (m, match parseUrlPath b with
+          | none => ["B upath-rejected", "P upath 0"]
+          | some u => [pathTags u, "P upath 1 " ++ showPath u ++ " str=" ++ hexOfBytes (urlPathToString u) ++
+              " rt=" ++ (if parseUrlPath (urlPathToString u) == some u then "1" else "0")])
+    | none => (m, ["bad-op"])
+  | ["uhost", h] =>
+    match bytesOfHex h with
+    | some b =>
+      (m, match stringToUrlHost b with
+          | none => ["B uhost-rejected", "P uhost 0"]
+          | some u => ["B " ++ (if u.wf then "host-wf" else "host-nwf"),
+              "P uhost 1 " ++ showHost u ++ " str=" ++ hexOfBytes (urlHostToString u)])
+    | none => (m, ["bad-op"])
+  | ["url", h] =>
+    match bytesOfHex h with
+    | some b =>
+      (m, match stringToUrl b with
+          | .threw => ["P exception"]
+          | .fail => ["B url-rejected", "P url 0"]
+          | .ok u => ["B " ++ (if u.wf then "absurl-wf" else "absurl-nwf"),
+              "P url 1 scheme=" ++ hexOfBytes u.scheme ++ " " ++ showHost u.host ++ " " ++ showPath u.path ++
+              " str=" ++ hexOfBytes (urlToString u) ++ " rt=" ++ (if stringToUrl (urlToString u) == .ok u then "1" else "0")])
+    | none => (m, ["bad-op"])
+  | ["mkpath", p, ps, qs, f] =>
+    match bytesOfHex p, parseKVs? ps, parseKVs? qs, bytesOfHex f with
+    | some p, some ps, some qs, some f =>
+      let u : UrlPath := ⟨p, ps, qs, f⟩
+      (m, [pathTags u, "P mkpath " ++ backPath u])
+    | _, _, _, _ => (m, ["bad-op"])
+  | ["mkurl", sc, us, pw, ho, po, p, ps, qs, f] =>
+    match bytesOfHex sc, bytesOfHex us, bytesOfHex pw, bytesOfHex ho, po.toNat?, bytesOfHex p, parseKVs? ps, parseKVs? qs, bytesOfHex f with
+    | some sc, some us, some pw, some ho, some po, some p, some ps, some qs, some f =>
+      if po > 65535 then (m, ["bad-op"]) else
+      let u : Url := ⟨sc, ⟨us, pw, ho, po⟩, ⟨p, ps, qs, f⟩⟩
+      (m, ["B " ++ (if u.wf then "absurl-wf" else "absurl-nwf"),
+           "P mkurl str=" ++ hexOfBytes (urlToString u) ++ " back=" ++
+           (match stringToUrl (urlToString u) with
+            | .threw => "exception"
+            | .fail => "0"
+            | .ok v => "1 scheme=" ++ hexOfBytes v.scheme ++ " " ++ showHost v.host ++ " " ++ showPath v.path ++
+                " rt=" ++ (if v == u then "1" else "0"))])
+    | _, _, _, _, _, _, _, _, _ => (m, ["bad-op"])
+  | ["enc", md, h] =>
+    match bytesOfHex h with
+    | some b => if md == "0" || md == "1" then (m, ["P enc " ++ hexOfBytes (urlEncode (md == "1") b)]) else (m, ["bad-op"])
+    | none => (m, ["bad-op"])
+  | ["dec", h] =>
+    match bytesOfHex h with
+    | some b => (m, [match urlDecode b with | none => "P dec throws" | some d => "P dec " ++ hexOfBytes d])
+    | none => (m, ["bad-op"])
+  | ["mkreq", me, p, ps, qs, f, ve, hs, bo] =>
+    match bytesOfHex p, parseKVs? ps, parseKVs? qs, bytesOfHex f, parseKVs? hs, bytesOfHex bo with
+    | some p, some ps, some qs, some f, some hs, some bo =>
+      if !methodNames.contains me || !verNames.contains ve then (m, ["bad-op"]) else
+      let r : Req := ⟨me, ⟨p, ps, qs, f⟩, ve, hs, bo⟩
+      (m, ["B mkreq", "P mkreq str=" ++ hexOfBytes r.render,
+           match parse cfg PState.init r.render with
+           | .threw => "P exception"
+           | .hang => "P hang"
+           | .ok ps rest => "P reparse consumed=" ++ toString (r.render.length - rest.length) ++ " st=" ++ showSt ps.st ++
+               (if ps.st == .all then " " ++ showReq ps.req ++ " same=" ++
+                 (if ps.req == { r with headers := mapInsert (ascii "Content-Length") (decimal bo.length) hs } then "1" else "0") else "")])
+    | _, _, _, _, _, _ => (m, ["bad-op"])
+  | ["mkres", ve, code, hs, bo] =>
+    match code.toNat?, parseKVs? hs, bytesOfHex bo with
+    | some code, some hs, some bo =>
+      if !verNames.contains ve || code > 999 then (m, ["bad-op"]) else
+      (m, ["B mkres", "P mkres " ++ hexOfBytes (Respond.mk ve code hs bo).render])
+    | _, _, _ => (m, ["bad-op"])
   | _ => (m, ["bad-op"])
 
 def main : IO Unit := runDriver Mode.fresh stepLine
